@@ -21,6 +21,11 @@ type Clause struct {
 }
 
 type LoopSpec struct {
+	// Deterministic: the loop ranges over a map and its effect must not
+	// depend on the iteration order (commutativity obligation).
+	Deterministic bool
+	DetStar       bool
+	DetProps      []string
 	Invariants []*Clause
 	Modifies   []string // extra heap keys havocked (rarely needed)
 }
@@ -396,6 +401,10 @@ func (sp *Specs) loadSpecFile(path, pkg string) error {
 				ls.Invariants = append(ls.Invariants, cl)
 			case "modifies":
 				ls.Modifies = append(ls.Modifies, strings.Fields(strings.ReplaceAll(r3, ",", " "))...)
+			case "deterministic", "deterministic*":
+				ls.Deterministic = true
+				ls.DetStar = kind == "deterministic*"
+				ls.DetProps = strings.Fields(r3)
 			default:
 				return fail(l, "unknown loop clause %q", kind)
 			}
